@@ -412,6 +412,35 @@ def gen_adjacent_runs(rng, dist, rounds):
                         out.append("pp %d 2 1 1 %s" % (ll, ";".join(pre + vals)))
     return out
 
+def gen_ellipsis_strings(rng, dist, rounds):
+    """strings and symbols that hold "..." in places OUTSIDE the finding ellipsis-in-string-before-range
+    (which needs such a string directly before a compressed i/h/c run): before booleans, before a
+    constant run of strings, inside an array, two values before an integer run, behind a run, alone"""
+    out = []
+    def es():
+        body = rng.choice([b"...", b"a...b", b"x ... y", b"....", b"... ", b"1 ... 5", b"..a...", b"\"..."])
+        return ("s:" if rng.random() < 0.7 else "S:") + body.hex()
+    for _ in range(rounds):
+        irun = ["i:%d" % (3 + j) for j in range(6)]
+        shapes = {
+            "alone": [es()],
+            "before-bool": [es(), "T", "F", "N"],
+            "before-const-strings": [es()] + ["s:6162"] * 6,
+            "run-of-them": [es()] * 1 + ["T"] * 6,
+            "in-array": ["a:115:3", "s:61", es().replace("S:", "s:"), "s:62"],
+            "two-before-run": [es(), "T"] + irun,
+            "behind-run": irun + [es()],
+            "behind-run-then-run": irun + [es(), "N"] + ["h:%d" % (10 - j) for j in range(5)],
+        }
+        for name, vals in shapes.items():
+            ll = rng.choice([20, 40, 80])
+            dist["ellipsis-string-%s" % name] = dist.get("ellipsis-string-%s" % name, 0) + 1
+            if rng.random() < 0.3:
+                out.append("pm %d 2 1 1 %s %s" % (ll, ";".join(vals), b"/a...7".hex()))
+            else:
+                out.append("pp %d 2 1 1 %s" % (ll, ";".join(vals)))
+    return out
+
 def gen_calendar(rng, dist, n):
     """the calendar oracle pair (TimeFmt.date_of_secs / secs_of_date = localtime / mktime of libc, TZ=UTC):
     boundaries of days, months, leap years (2000 is one, 2100 is not), 2^31, 2^32 - 1, random seconds"""
@@ -434,7 +463,8 @@ def gen_calendar(rng, dist, n):
 def gen(rng, tier, dist):
     return (gen_calendar(rng, dist, 150 if tier == "quick" else 20000)
             + gen_runlengths(rng, dist, 1 if tier == "quick" else 20)
-            + gen_adjacent_runs(rng, dist, 2 if tier == "quick" else 40) + gen_scalar(rng, tier, dist)
+            + gen_adjacent_runs(rng, dist, 2 if tier == "quick" else 40)
+            + gen_ellipsis_strings(rng, dist, 3 if tier == "quick" else 60) + gen_scalar(rng, tier, dist)
             + gen_struct(rng, tier, dist, 2500 if tier == "quick" else 120000))
 
 def gen_scalar(rng, tier, dist):
